@@ -1,5 +1,7 @@
 package cert
 
+import "encoding/asn1"
+
 // reference DER helpers, written from X.690 (independent of encoding/asn1)
 
 func vDerLen(n int) []byte {
@@ -49,3 +51,5 @@ func vPrintableString(name string, n int) string {
 	}
 	return s
 }
+
+func asn1MarshalForTest(v any) ([]byte, error) { return asn1.Marshal(v) }
